@@ -68,6 +68,13 @@ def _init_worker(modname, repo):
     import warnings
     warnings.filterwarnings('ignore')
     if mp.current_process().name != 'MainProcess':
+        try:        # die with the parent (a killed check must not leave workers behind)
+            import ctypes, signal
+            ctypes.CDLL('libc.so.6').prctl(1, signal.SIGKILL)
+            if os.getppid() == 1:
+                os._exit(1)
+        except Exception:
+            pass
         sys.stdout = open(os.devnull, 'w')        # the library prints progress messages unconditionally in places
     _MOD = importlib.import_module(modname)
     if hasattr(_MOD, 'init_worker'):
@@ -107,11 +114,37 @@ class Runner:
         if procs == 1 or os.environ.get('VERIF_SERIAL'):
             _init_worker(self.modname, build.REPO)
             return [_work(c) for c in cases]
+        from concurrent.futures import ProcessPoolExecutor
+        from concurrent.futures.process import BrokenProcessPool
         ctx = mp.get_context('spawn')
-        if chunksize is None:
-            chunksize = max(1, min(64, len(cases) // (procs * 8)))
-        with ctx.Pool(procs, initializer=_init_worker, initargs=(self.modname, build.REPO)) as pool:
-            return pool.map(_work, cases, chunksize=chunksize)
+        results = [None] * len(cases)
+        todo = list(range(len(cases)))
+        isolate = False
+        while todo:
+            kw = dict(max_workers=procs, mp_context=ctx, initializer=_init_worker, initargs=(self.modname, build.REPO))
+            if isolate:
+                kw['max_tasks_per_child'] = 1        # one fresh process per case: a crash is attributed to exactly one case
+            with ProcessPoolExecutor(**kw) as ex:
+                futs = {i: ex.submit(_work, cases[i]) for i in todo}
+                broken = []
+                for i, fu in futs.items():
+                    try:
+                        results[i] = fu.result()
+                    except BrokenProcessPool:
+                        broken.append(i)
+                    except Exception:
+                        results[i] = dict(case=cases[i], t=0.0, fails=[fail('worker failed', sig=None, traceback=traceback.format_exc()[-2000:])])
+            if not broken:
+                break
+            if isolate:
+                # with one process per case the pool breaks at the first crashing case; later ones are reported broken too: retry them
+                first = broken[0]
+                results[first] = dict(case=cases[first], t=0.0, fails=[fail(
+                    'the library crashed the interpreter (segmentation fault / abort) while this case was executed', sig=None)])
+                broken = broken[1:]
+            isolate = True
+            todo = broken
+        return results
 
     def is_known(self, f):
         for k in self.known:
